@@ -20,7 +20,7 @@ struct Made {
 };
 
 // 0..max_objects objects in the domain the formats share (see C02), encoded under generated encoding choices
-inline Made small_file(Src& s, int fmt, size_t max_objects = 8, bool changesets = true) {
+inline Made small_file(Src& s, int fmt, size_t max_objects = 8, bool changesets = true, size_t min_objects = 0) {
     Made m;
     m.fmt = fmt;
     enc::PbfPlan plan;
@@ -31,7 +31,7 @@ inline Made small_file(Src& s, int fmt, size_t max_objects = 8, bool changesets 
     go.valid_locations_only = true;
     go.max_list = 4;
     go.max_str = s.chance(1, 8) ? 300 : 24;
-    size_t n = s.size(max_objects);
+    size_t n = std::max(min_objects, s.size(max_objects));
     for (size_t i = 0; i < n; ++i) {
         Obj x = gen::object(s, static_cast<int>(s.draw(3)), go);
         if (x.version == 0 || s.chance(1, 4)) {
